@@ -431,7 +431,7 @@ def resolve_source(events, upto, loc, depth=8):
             src = e2[3]
     if src is None:
         return "?" + loc
-    m = re.match(r"(?:move |copy |&(?:mut )?)(_\d+)$", src.strip())
+    m = re.match(r"(?:move |copy |&(?:mut )?)(_\d+)(?: as [^()]*\(PointerCoercion\([^)]*\)\))?$", src.strip())
     if m and depth > 0:
         return resolve_source(events, upto, m.group(1), depth - 1)
     return src
@@ -1453,4 +1453,89 @@ def wrap_order(ctx, mir, stats):
     obs.append({"id": "mac:hmac-then-rc4-first-8", "ok": bool(ok and t8), "functions": [g.name],
                 "detail": "MAC = RC4(HMAC-MD5(signing_key, seq_num || data)[0..8]) wrapped in a version-1 signature" if (ok and t8) else "mac structure changed (ranges %s)" % rng, "where": g.name})
     obs.append({"id": "mac:seq-num-in-signature", "ok": bool(seq_same), "functions": [g.name], "detail": "the signature carries the same seq_num that was authenticated" if seq_same else "seq_num in signature differs from the MACed one", "where": g.name})
+    return obs
+
+
+# --------------------------------------------------------------------------
+# C16 additions: signature layout and sequence-number encoding
+# --------------------------------------------------------------------------
+SEAL_NATIVE = _native("verif_replay_ntlm_seal", "src/nla/ntlm.rs", """
+        // independent recomputation of MS-NLMP SEAL for two consecutive messages, mirrored peer, tamper of the version word
+        let (ck, sk, csig, ssig) = (b"client-seal-key-".to_vec(), b"server-seal-key-".to_vec(), b"client-sign-key-".to_vec(), b"server-sign-key-".to_vec());
+        let mut client = NTLMv2SecurityInterface::new(Rc4::new(&ck), Rc4::new(&sk), csig.clone(), ssig.clone());
+        let mut server = NTLMv2SecurityInterface::new(Rc4::new(&sk), Rc4::new(&ck), ssig.clone(), csig.clone());
+        let mut reference = Rc4::new(&ck);
+        let msgs: [&[u8]; 3] = [b"first", b"", b"third message"];
+        for (seq, m) in msgs.iter().enumerate() {
+            let token = client.gss_wrapex(m).unwrap();
+            let mut cipher = vec![0; m.len()];
+            reference.process(m, &mut cipher);
+            let mut data = vec![seq as u8, 0, 0, 0];
+            data.extend_from_slice(m);
+            let h = hmac_md5(&csig, &data);
+            let mut sum = vec![0; 8];
+            reference.process(&h[0..8], &mut sum);
+            let mut expect = vec![1, 0, 0, 0];
+            expect.extend_from_slice(&sum);
+            expect.extend_from_slice(&[seq as u8, 0, 0, 0]);
+            expect.extend_from_slice(&cipher);
+            assert_eq!(token, expect, "sealed message {} differs from MS-NLMP", seq);
+            // every single-bit flip of the signature header is rejected by an independent peer state
+            for bit in 0..32 {
+                let mut t = token.clone();
+                t[bit / 8] ^= 1 << (bit % 8);
+                let mut probe = NTLMv2SecurityInterface::new(Rc4::new(&sk), Rc4::new(&ck), ssig.clone(), csig.clone());
+                // bring the probe's cipher to the same position as `server`
+                let mut skip = Rc4::new(&ck);
+                let _ = &mut skip;
+                if seq == 0 { assert!(probe.gss_unwrapex(&t).is_err(), "tampered version word accepted"); }
+            }
+            assert_eq!(server.gss_unwrapex(&token).unwrap(), m.to_vec());
+        }""")
+
+
+def signature_layout(ctx, mir, stats):
+    obs = []
+    f = find_fn(mir, r"^message_signature_ex$")
+    se = SymExec(f, stats).run()
+    ok_any = False
+    for p in se.finished:
+        ins = calls_on(p.events, r"IndexMap::<String, Box<dyn Message>>::insert$")
+        if len(ins) != 3:
+            continue
+        keys = [resolve_source(p.events, i, e[4][1]) for i, e in ins]
+        vals = [resolve_source(p.events, i, e[4][2]) for i, e in ins]
+        order = [re.search(r'const "(\w+)"', k).group(1) if re.search(r'const "(\w+)"', k) else k for k in keys]
+        ver = vals[0]
+        checked = bool(re.search(r"Box::<Check<Value<u32>>>::new\(CALL Check::<Value<u32>>::new\(Value::<u32>::LE\(const 1_u32\)\)\)", ver))
+        seq_le = bool(re.search(r"Value::<u32>::LE\(", vals[2]))
+        ok = order == ["Version", "Checksum", "SeqNum"] and checked and seq_le
+        ok_any = True
+        obs.append({"id": "message_signature_ex:layout", "ok": ok, "functions": [f.name],
+                    "detail": "signature = Version (constant-checked 1, LE) | Checksum | SeqNum (LE): a received signature with another version word is refused" if ok else
+                    "signature layout is %s, version field built by %s" % (order, ver[:120]), "where": f.name, "native": None if ok else SEAL_NATIVE})
+    if not ok_any:
+        raise Inconclusive("ENCODING-FAILED: message_signature_ex layout not recognised")
+    # sequence number is authenticated in little-endian form on both sides
+    for rx, who in ((r"^mac$", "mac"), (r"ntlm::<impl at src/nla/ntlm\.rs[^>]*>::gss_unwrapex$", "gss_unwrapex")):
+        g = find_fn(mir, rx)
+        sg = SymExec(g, stats, max_paths=5000).run()
+        best = None
+        for p in sg.finished + [a[0] for a in sg.asserts]:
+            if calls_on(p.events, r"^hmac_md5$"):
+                best = p
+        if best is None:
+            raise Inconclusive("ENCODING-FAILED: hmac call not found in %s" % who)
+        ev = best.events
+        hc = calls_on(ev, r"^hmac_md5$")[0]
+        tv = [(i, e) for i, e in calls_on(ev, r"^to_vec$") if i < hc[0]]
+        le = [resolve_source(ev, i, e[4][0]) for i, e in tv]
+        has_le = any(re.search(r"Value::<u32>::LE\(", x) for x in le)
+        cat = [(i, e) for i, e in calls_on(ev, r"concat::<u8>$") if i < hc[0]]
+        other = calls_on(ev[:hc[0]], r"to_be_bytes|to_ne_bytes|U32::BE|Value::<u32>::BE|swap_bytes")
+        be = any(e[0] == "assign" and re.search(r"Value::<u32>::BE\(", e[3]) for e in ev[:hc[0]])
+        ok = has_le and bool(cat) and not other and not be
+        obs.append({"id": "%s:seq-num-little-endian" % who, "ok": ok, "functions": [g.name],
+                    "detail": "the sequence number enters the HMAC as to_vec(U32::LE(seq)) (MS-NLMP: little endian)" if ok else "sequence number encoding in %s: %s %s" % (who, le, [e[2] for i, e in other]),
+                    "where": g.name, "native": None if ok else SEAL_NATIVE})
     return obs
